@@ -235,6 +235,10 @@ def c02_alphabet(tier):
     return muts, qs
 
 
+def c_mem_envspec():
+    return envspec(MEM_ENV)
+
+
 def c02_streams(tier, rng, ctx):
     muts, qs = c02_alphabet(tier)
     depth = 2 if tier == "quick" else 3
@@ -244,10 +248,31 @@ def c02_streams(tier, rng, ctx):
     rnd = std_histories(rng, 3000 if tier == "quick" else 40000, 10, "x")
     rnd_nolinks = std_histories(rng, 1500 if tier == "quick" else 20000, 14, "x", with_links=False, special=0.15)
     senv = sandbox_env("c02")
+    # directories that contain links (relative targets inside the directory, absolute targets outside it) moved or copied as a whole, then
+    # every link read back and used
+    lk = []
+    base = [op("mkdir_p", "/a/sub"), op("write_all", "/a/file", b"F"), op("mkdir_p", "/o"), op("write_all", "/o/g", b"G")]
+    links = [[op("symlink", "/a/sub/link", "../file")], [op("symlink", "/a/l", "file")], [op("symlink", "/a/sub/up", "..")], [op("symlink", "/a/abs", "/o/g")],
+             [op("symlink", "/a/l", "sub")], [op("symlink", "/a/sub/link", "../file"), op("symlink", "/a/l2", "sub/link")]]
+    acts = [[op("move_p", "/a", "/b")], [op("move_p", "/a", "/o")], [op("copy", "/a", "/b")], [op("copy", "/a", "/o")], [op("move_p", "/a/sub", "/s2")],
+            [op("move_p", "/a", "/b"), op("move_p", "/b", "/c")]]
+    roots = ["/a", "/b", "/o/a", "/s2", "/c", "/a/sub", "/b/sub", "/o/a/sub", "/c/sub"]
+    names = ["link", "l", "up", "abs", "l2"]
+    for ls in links:
+        for ac in acts:
+            probes = []
+            for r in roots:
+                for n in names:
+                    q = r + "/" + n
+                    probes += [op("readlink", q), op("readlink_abs", q), op("is_symlink_dir", q), op("is_symlink_file", q)]
+            lk.append("\t".join(["hist", "x", c_mem_envspec()] + base + ls + ac + probes + [op("all_paths", "/")]))
 
     def nontrivial(l, o):
         return "\tok" in o or "\tp" in o
     return [
+        Stream("backends-moved-links", "pycheck", lk, impl_env=senv, pycheck=x_eq, nontrivial=nontrivial, exhaustive=True,
+               rule="directories containing links (relative targets inside them, absolute targets outside) moved or copied as a whole, to a new name and into an existing "
+                    "directory, then readlink / readlink_abs / is_symlink_dir / is_symlink_file of every link at its new place: both backends side by side"),
         Stream("backends-bfs", "pycheck", hs, impl_env=senv, pycheck=x_eq, nontrivial=nontrivial, exhaustive=True,
                rule="every history of the model-guided BFS (%s, depth %d) over the C02 alphabet (create, write, append, read, list, traverse, query, chmod, copy, move, remove, symlink, "
                     "set_cwd; absolute / relative / unclean / ~ / $VAR spellings), run on Memfs and on Stdfs in a sandbox side by side; the history is cut before the first call whose "
